@@ -96,6 +96,10 @@ class WebBrowser(Application, discriminator="web-browser"):
         if not self._can_perform_action():
             return False
 
+        if not url:
+            self.sys_log.warning(f"{self.name}: No URL to request, target_url is not configured")
+            return False
+
         self.num_executions += 1  # trying to connect counts as an execution
 
         # reset latest response
